@@ -1,0 +1,6 @@
+//go:build !verif
+
+package file
+
+func verifPoint(string)  {}
+func verifSynced(string) {}
